@@ -753,7 +753,7 @@ theorem project_unfold_rev (emp : π → Bool) (mk : π) (cfg : Cfg) {k : Int} (
 
 theorem project_unfold_fwd (emp : π → Bool) (mk : π) (cfg : Cfg) {k : Int} (hk : 0 < k) (m : Int)
     (iv : Option (Int × Int)) (sp : Option Nat) (os oe : Option Int) {f : Fib Int π}
-    (hok : projStartOk iv sp f = true) :
+    (hok : projStartOk k m iv sp f = true) :
     project emp mk cfg k m iv sp os oe f =
       .ok (lazyIter (fun x : Option Nat × π => emp x.2) os oe (ivLoop iv (transF k m (iterDefault emp mk cfg sp f)))) := by
   unfold project projectRaw
@@ -794,7 +794,7 @@ theorem mem_take_le {f : Fib Int π} (hs : Sorted f) {n : Nat} {y : Int × π} (
 /-- order-preserving transform, compressed rank, valid shortcut -/
 theorem project_fwd_C_sp (emp : π → Bool) (mk : π) (cfg : Cfg) (hf : cfg.fmt = .C) {k : Int} (hk : 0 < k) (m : Int)
     (iv : Option (Int × Int)) (sp : Nat) (os oe : Option Int) {f : Fib Int π} (hs : Sorted f)
-    (hok : projStartOk iv (some sp) f = true) (hv : projValidStart emp k m iv sp f = true) :
+    (hok : projStartOk k m iv (some sp) f = true) (hv : projValidStart emp k m iv sp f = true) :
     project emp mk cfg k m iv (some sp) os oe f = .ok (projectSpec emp k m iv os oe f) := by
   have hw := withPos_sorted hs
   rw [project_unfold_fwd emp mk cfg hk m iv (some sp) os oe hok]
@@ -859,7 +859,7 @@ theorem project_fwd_C_sp (emp : π → Bool) (mk : π) (cfg : Cfg) (hf : cfg.fmt
 /-- order-preserving transform, uncompressed rank whose content lies within its active range -/
 theorem project_fwd_U (emp : π → Bool) (mk : π) (hmk : emp mk = true) (cfg : Cfg) (hf : cfg.fmt = .U)
     {k : Int} (hk : 0 < k) (m : Int) (iv : Option (Int × Int)) (sp : Option Nat) (os oe : Option Int)
-    {f : Fib Int π} (hs : Sorted f) (hok : projStartOk iv sp f = true)
+    {f : Fib Int π} (hs : Sorted f) (hok : projStartOk k m iv sp f = true)
     (hin : withinActive emp cfg f = true) :
     project emp mk cfg k m iv sp os oe f = .ok (projectSpec emp k m iv os oe f) := by
   rw [project_unfold_fwd emp mk cfg hk m iv sp os oe hok, iterDefault_U emp mk cfg hf hs sp]
@@ -882,6 +882,17 @@ theorem project_fwd_U (emp : π → Bool) (mk : π) (hmk : emp mk = true) (cfg :
     · simp [h.1, h.2]
   unfold occ
   rw [hfe]
+
+/-- a valid shortcut passes the assertions of `project` -/
+theorem projStartOk_of_valid {emp : π → Bool} {k m : Int} {iv : Option (Int × Int)} {sp : Nat} {f : Fib Int π}
+    (hv : projValidStart emp k m iv sp f = true) : projStartOk k m iv (some sp) f = true := by
+  unfold projValidStart at hv
+  unfold projStartOk
+  rw [Bool.and_eq_true] at hv ⊢
+  refine ⟨hv.1, ?_⟩
+  cases iv with
+  | none => rfl
+  | some p => exact hv.2
 
 end projcases
 end Ft.C07
